@@ -406,3 +406,10 @@ PROPS['C04']['e1'] = PROPS['C04']['e1'] + [RV1, RV2]
 PROPS['C04']['assumptions'] = PROPS['C04']['assumptions'] + [D_ARGMIN, 'A-UNIT: unit model of sedvc/units.py']
 PROPS['C04']['explanation'] += (' Models._read_version_1/2: the scale axis is log10 of the trial distance in kpc for a range given in kpc or in pc. E2 also: models with infinite chi^2 '
                                 '(rejected at every distance) placed before finite ones.')
+
+
+# ---- round 4 of seeded changes -----------------------------------------------------------------------------------
+# C08: a package read at one fixed distance / with the range in another unit is part of "planted distance recovered";
+# C09: the writers iterate results through FitInfoFile.__iter__, whose copies are what keeps the caller's results intact
+PROPS['C08']['e1'] = PROPS['C08']['e1'] + [RV1, RV2]
+PROPS['C09']['e1'] = PROPS['C09']['e1'] + [FIFN + '__iter__', FIFN + '__init__']
